@@ -40,7 +40,7 @@ def run_rhs(chk, kind, n, mesh, Q, source, law_const=False):
     return res, disc, m, info
 
 
-def build(chk):
+def _build_own(chk):
     it = chk.interp
     chk.assumptions += [
         "machine arithmetic treated as mathematical (real) arithmetic",
@@ -122,3 +122,9 @@ def build(chk):
             prove("constant-section-no-source[%s]" % cn,
                   z3.Implies(Af(x1) == Af(x0), T.treal(res[k].at(i)) == bal), replay=rp)
     chk.run("nozzle/geometric-sources", geom)
+
+
+def build(chk):
+    _build_own(chk)
+    from . import C20
+    chk.include(C20, r".", "uses:C20")          # the mesh contract (the sources receive the cell centres of the mesh)
